@@ -386,7 +386,8 @@ def gen_cut_base(seed, opts=None):
         plan['client']['keepalive_ms'] = 1_000_000
     for ep in ('client', 'server'):
         if rng.random() < 0.3:
-            plan[ep]['on_close'] = _pick(rng, [(2, ['sleep', _pick(rng, [(1, 0.001), (1, 0.05), (1, 1.0)])]), (1, ['hops', rng.randint(1, 5)])])
+            plan[ep]['on_close'] = _pick(rng, [(2, ['sleep', _pick(rng, [(1, 0.001), (1, 0.05), (1, 1.0)])]), (1, ['hops', rng.randint(1, 5)]),
+                                               (1, ['raise'])])
     plan['horizon'] = 8.0
     plan['settle'] = 4.0
     plan['nontrivial'] = True
